@@ -1056,9 +1056,7 @@ func (e *Env) pureMethodCall(sel *ast.SelectorExpr, argExprs []ast.Expr) (Val, b
 	for _, a := range argExprs {
 		all = append(all, e.evalGo(a))
 	}
-	mk := fmt.Sprintf("%s|%d", key, e.heap.id)
 	for _, a := range all {
-		mk += "|" + joinSp(a.L)
 		for _, l := range a.L {
 			if strings.Contains(l, "bv.") {
 				e.errf("pure method call %s on a bound variable is not supported", key)
@@ -1066,14 +1064,15 @@ func (e *Env) pureMethodCall(sel *ast.SelectorExpr, argExprs []ast.Expr) (Val, b
 			}
 		}
 	}
+	rt := resultType(sig)
+	res := vc.pureResult(key, e.heap, all, rt)
+	mk := key + "|" + joinSp(res.L)
 	if pureCallMemo[vc] == nil {
 		pureCallMemo[vc] = map[string]Val{}
 	}
 	if v, ok := pureCallMemo[vc][mk]; ok {
 		return v, true
 	}
-	rt := resultType(sig)
-	res := vc.freshVal("pure."+sanitize(key), rt)
 	vc.assert(vc.typeFacts(res))
 	ce := &Env{vc: vc, vars: map[string]Val{}, heap: e.heap, old: e.heap, now: e.now, pkg: e.pkg, what: "pure call of " + key + " in " + e.what}
 	if strings.HasPrefix(key, "iface ") || true {
